@@ -302,6 +302,44 @@ def random_tree(rng: random.Random, depth: int) -> tuple[Any, Any, int]:
     return shape, v, md
 
 
+def missing_leaves(v: Any, out: list[Any]) -> None:
+    if type(v).__name__ == "Missing":
+        out.append(v)
+    elif isinstance(v, dict):
+        for k, x in v.items():
+            missing_leaves(k, out)
+            missing_leaves(x, out)
+    elif isinstance(v, (list, tuple, set, frozenset)):
+        for x in v:
+            missing_leaves(x, out)
+
+
+HASH_CONTAINERS = {
+    "set": lambda M: {M, 1}, "frozenset": lambda M: frozenset({M}), "dict-key": lambda M: {M: "v", "k": 1}, "set-of-tuples": lambda M: {(M, 1), (2, M)},
+    "frozenset-in-list": lambda M: [frozenset({M, None}), M], "dict-key-tuple": lambda M: {(M,): (M,)}, "set-in-dict-in-tuple": lambda M: ({"s": {M}},),
+}
+
+
+def hash_containers(R: Recorder) -> None:
+    """containers that hash their elements: sets, frozensets, dictionary keys (and tuples inside them)"""
+    M = globals()["MISSING_"]
+    for label, make in HASH_CONTAINERS.items():
+        for op in ("build", *OPS):
+            case = {"hash_container": label, "op": op}
+            R.case(case, nontrivial=True)
+            try:
+                v = make(M)
+                out = v if op == "build" else apply(op, v)
+                leaves: list[Any] = []
+                missing_leaves(out, leaves)
+                ok = len(leaves) >= 1 and all(x is M for x in leaves) and (M in v if label in ("set", "frozenset", "dict-key") else True)
+                detail = f"{label} {op}: {len(leaves)} missing leaves, all the one MISSING: {all(x is M for x in leaves)}"
+            except BaseException as exc:  # noqa: BLE001
+                ok, detail = False, f"{label} {op}: {exc!r}"
+            R.count("hash_container_roundtrips")
+            R.monitor("identity", ok, where={"kind": "hash-container", "container": label, "op": "build" if op == "build" else op.rstrip("0123456789"), "top": "hash-container"}, detail=detail, case=case)
+
+
 def run(R: Recorder, tier: str, seed: int, shard: int, nshards: int) -> None:
     from haiway.types import MISSING
 
@@ -310,6 +348,7 @@ def run(R: Recorder, tier: str, seed: int, shard: int, nshards: int) -> None:
     M = MISSING
     if shard == 0:
         scalar_laws(R)
+        hash_containers(R)
     R.flags["exhaustive_core"] = "all wrapper chains of depth 0..4 over 5 wrapper kinds x 8 operations"
     n = 0
     for depth in range(0, 5):
@@ -341,6 +380,9 @@ def replay(R: Recorder, case: dict[str, Any]) -> None:
 
     globals()["MISSING_"] = MISSING
     _types()
+    if "hash_container" in case:
+        hash_containers(R)
+        return
     if "shape" not in case or not isinstance(case["shape"], list) or any(not isinstance(k, str) for k in case["shape"]):
         scalar_laws(R)
         return
